@@ -421,7 +421,7 @@ def clang_links(ast):
         k = n.get("kind", "")
         if k.endswith("Decl") and "id" in n and l:
             decls[n["id"]] = {"kind": k, "name": n.get("name"), "line": l[0], "col": l[1], "prev": n.get("previousDecl"),
-                              "implicit": n.get("isImplicit", False)}
+                              "implicit": n.get("isImplicit", False), "file": st["file"]}
         if k == "DeclRefExpr" and rb and "referencedDecl" in n:
             rd = n["referencedDecl"]
             # a qualified name (N::a, ::a) begins at the qualifier: the name token is at range.end
